@@ -236,3 +236,39 @@ Example C03_example_predeclared :
     ("example.com/x/string", "xstring")],
    [""; ""; ""; ""; "acomlen.T[acomnil.V]"]).
 Proof. vm_compute. reflexivity. Qed.
+
+(* ------------------------------------------------------------------------------------------------------------ *)
+(* RenderStack: C03_exact_imports lifted from histories of references to snippet TERMS.
+   [crender] (Model/RenderStack.v) is the composed rendering: C09's scanners threading the state of THIS tracker
+   through C10's value literals and C11's / C15's type literals and references.  [cpkgs s] are the packages of the
+   leaves of s that are rendered — holes that occur (and are not nil), arguments a verb consumes — read off the term
+   by the specification's tokenisation (no scanner loop); a leaf's packages are the paths its rendering hands to AddType
+   ([leaf_regs]: for a type of C11's grammar exactly its foreign packages — C11_registers_exact; for a value of the
+   repaired code exactly the foreign packages its literal mentions — C10_literal_packages_exact). *)
+Require Import Gengo.Model.RenderStack Gengo.Proofs.RenderStackTracker Gengo.Proofs.RenderStackLeaves Gengo.Proofs.RenderStack.
+
+(* the tracker after rendering a term is AddType of those packages, in rendering order, on the tracker before *)
+Theorem C03_terms_register_exactly :
+  forall (F : Type) (fzero : F -> bool) (ffmt gfmt : VL.fkind -> F -> bytes) (fbig : F -> bool)
+         (quote : bytes -> bytes) (cbq : bytes -> bool) (pre : list bytes) (std : option tracker)
+         (self : bytes) (fx6 : bool) (s : @csnip F) (e : TL.renv) (out : bytes) (e' : TL.renv),
+    crender fzero ffmt gfmt fbig quote cbq (pick_c03 pre std) self fx6 s e = Ok (out, e') ->
+    e' = RenderStack.add_all (pick_c03 pre std) (cpkgs fzero ffmt gfmt fbig quote self fx6 s) e /\
+    (forall p, In p (map fst e') <-> In p (map fst e) \/ In p (cpkgs fzero ffmt gfmt fbig quote self fx6 s)).
+Proof.
+  exact (fun F fzero ffmt gfmt fbig quote cbq pre std self fx6 s e out e' H =>
+           conj (crender_reach fzero ffmt gfmt fbig quote cbq pre std self fx6 s e out e' H)
+                (crender_imports fzero ffmt gfmt fbig quote cbq pre std self fx6 s e out e' H)).
+Qed.
+Print Assumptions C03_terms_register_exactly.
+
+(* ... so a sequence of Render calls is a HISTORY of this file ([add_all] = the OAdd history, Proofs add_all_as_run),
+   and every theorem above (bijection, stability, valid names, not predeclared) applies to the writer's tracker *)
+Theorem C03_terms_are_histories :
+  forall (F : Type) (fzero : F -> bool) (ffmt gfmt : VL.fkind -> F -> bytes) (fbig : F -> bool)
+         (quote : bytes -> bytes) (cbq : bytes -> bool) (pre : list bytes) (std : option tracker)
+         (self : bytes) (fx6 : bool) (l : list (@csnip F)) (e : TL.renv) (out : bytes) (e' : TL.renv),
+    crender_all fzero ffmt gfmt fbig quote cbq (pick_c03 pre std) self fx6 l e = Ok (out, e') ->
+    Gengo.Model.Tracker.add_all true pre std (tr_of e) (flat_map (cpkgs fzero ffmt gfmt fbig quote self fx6) l) = Ok (tr_of e').
+Proof. exact @crender_all_is_history. Qed.
+Print Assumptions C03_terms_are_histories.
